@@ -31,17 +31,15 @@ def classOf (name : String) : Option CardSlots := slotTable.find? (fun c => c.na
 def modelObj (cls : String) (e : Env) : Option (Except PyErr Obj) :=
   match cls with
   | "PART" => some (.ok (partModel e.ps))
-  | "DAMP" => some (dampModel 0.7 15 e.ps)
-  | "SWAT" => some (.ok (swatModel e.ps))
-  | "LATT" => some (lattModel e.ps)
+  | "LATT" => some (.ok (lattModel e.ps))
   | "TWIN" => some (twinModel e.ps)
   | "HTAB" => some (.ok (htabModel e.ps))
   | "SUMP" => some (sumpModel e.ps)
   | "LSCycles" =>
     if e.ps.all isInt then
       some (match lsInit false (e.ps.map pyInt) with
-        | .ok l => .ok [("cycles", .num l.cycles), ("nrf", match l.nrf with | some x => .num x | none => .none),
-                        ("nextra", match l.nextra with | some x => .num x | none => .none)]
+        | .ok l => .ok [("number", .num l.cycles), ("_nrf", match l.nrf with | some x => .num x | none => .none),
+                        ("_nextra", match l.nextra with | some x => .num x | none => .none)]
         | .error x => .error x)
     else none
   | _ => (classOf cls).map fun c => fill defsTable c e
